@@ -102,6 +102,10 @@ func runPool(t *testing.T, c *choice.Stream, r *Result, opt RunOpt, lean bool) {
 			for i := 0; i < n; i++ {
 				switch c.Weighted("prog.kind", 12, 2, 2, 1, 3) {
 				case 1:
+					if c.Bool("pooldo.after-sleep", 1, 2) {
+						// time passes first: the connection Pool.Do gets may be about to expire
+						progs[u] = append(progs[u], poolOp{Op: "sleep", Sleep: sec("pooldo.sleep", 1, 2, 5, 12)})
+					}
 					progs[u] = append(progs[u], poolOp{Op: "pool-do"})
 					continue
 				case 2:
@@ -478,8 +482,27 @@ func runPool(t *testing.T, c *choice.Stream, r *Result, opt RunOpt, lean bool) {
 							}
 							if op.Op == "pool-do" {
 								var v proto.ColUInt8
+								nreq := len(reqs)
 								_ = pool.Do(ctx, ch.Query{Body: "OK", QueryID: name + " 0", Result: proto.Results{{Name: "v", Data: &v}},
 									Settings: []ch.Setting{{Key: "user_tag", Value: name}}})
+								// Pool.Do has released the connection it used: if that one was past
+								// its lifetime by then, nobody may receive it again
+								if !lean {
+									for _, q := range reqs[min(nreq, len(reqs)):] {
+										if q.user != name || q.hold != 0 {
+											continue
+										}
+										// judged at the instant the request was written, which is before
+										// the release: the age can only have grown since (time may also
+										// pass between the release and this line)
+										if fu, ok := firstUse[q.conn]; ok && q.at-fu > lifetime {
+											if _, had := banned[q.conn]; !had {
+												banned[q.conn] = ban{fmt.Sprintf("it was older than MaxConnLifetime (%v) when Pool.Do of %s released it at step %d", lifetime, name, e.Sim.Step), e.Sim.Step}
+												fire("expired_at_pool_do_release")
+											}
+										}
+									}
+								}
 							} else {
 								_ = pool.Ping(ctx)
 							}
